@@ -204,7 +204,10 @@ def edit_member(data: bytes, edit: list) -> bytes:
     if k == "xml_empty":
         sp = _elements(data)
         if len(sp) > 1:
-            st, e = sp[1 + edit[1] % (len(sp) - 1)]
+            # prefer container elements (those holding child elements): emptying them changes structure, not just one value
+            cont = [x for x in sp[1:] if data.find(b"<", x[0] + 1, x[1] - 2) > 0 and data[x[0] + 1:x[1]].count(b"<") > 1]
+            pool = cont if (cont and edit[1] % 3 != 0) else sp[1:]
+            st, e = pool[(edit[1] // 3) % len(pool)]
             m = _TAG.match(data, st)
             if m and not m.group(4):
                 close = data.rfind(b"</", st, e)
